@@ -5,11 +5,13 @@ import Driver.C12Mon
 import Driver.FlowMon
 import Driver.C14Mon
 import Driver.C05Mon
+import Driver.C08Mon
 open Kv
 
 structure MState where
   c04 : Drv.Flow.MonSt := {}
   c07 : Drv.Flow.MonSt := {}
+  c08 : C08.MonState := {}
   deriving Inhabited
 
 /-- monitor-only driver: imports nothing generated, so it builds whatever the source looks like -/
@@ -22,6 +24,7 @@ def dispatchMon (st : MState) (prop : String) (l : Line) : MState × String :=
   | "C07" => let (s, r) := Drv.Flow.stepMon "C07" st.c07 l; ({ st with c07 := s }, r)
   | "C14" => (st, Drv.C14.stepMon l)
   | "C05" => (st, Drv.C05.step l)
+  | "C08" => let (s, r) := Drv.C08.stepMon st.c08 l; ({ st with c08 := s }, r)
   | _ => (st, "bad-op")
 
 def main : IO Unit := driverMain dispatchMon {}
